@@ -3,6 +3,7 @@ package props
 import (
 	"fmt"
 	"go/ast"
+	"go/token"
 	"strings"
 
 	"octoverif/core"
@@ -24,6 +25,8 @@ func init() {
 func runC16(c *core.Ctx) {
 	c.Rule("TIMEEQ", "time.Time values are compared with Equal/Before/After, never with ==")
 	checkTimeEquality(c, "TIMEEQ", "execution", "execution/nodes", "octosql", "aggregates", "table_valued_functions", "outputs", "functions", "datasources")
+	c.Rule("TRIGNR", "a trigger declared retraction-free cannot fire a key twice")
+	checkTriggerRetractionClaims(c, "TRIGNR")
 	p := c.Prog
 	ids := typeIDs(p)
 	c.Rule("ORD7", "end of stream: EndOfStreamReached → final trigger → return")
@@ -353,4 +356,59 @@ func checkKeyReceived(c *core.Ctx, ids map[string]int64) {
 			c.Decide(bad == "", "KEYRCV", ckey, lit.Pos(), len(outs), "KeyReceived(key) → trigger", bad)
 		}
 	}
+}
+
+// checkTriggerRetractionClaims (TRIGNR): physical.Trigger.NoRetractions promises the planner that a key is fired at most
+// once; csv/json printing and every LIMIT rely on it (no consolidation is planned). For the watermark trigger that is
+// true only if no key can be (re-)registered at or below the current watermark. WatermarkTrigger.KeyReceived registers
+// every key it is given without looking at the watermark, so a record arriving for an already fired key fires it again:
+// retract old row, emit new row — from a node that said it never retracts.
+func checkTriggerRetractionClaims(c *core.Ctx, rule string) {
+	p := c.Prog
+	nr := p.Func("physical", "(*Trigger).NoRetractions")
+	kr := p.Func("execution", "(*WatermarkTrigger).KeyReceived")
+	key := "physical.(*Trigger).NoRetractions/TriggerTypeWatermark"
+	if nr == nil || kr == nil {
+		c.Unknown(rule, key, 0, "anchor not found")
+		return
+	}
+	c.SawFunc("physical.(*Trigger).NoRetractions")
+	c.SawFunc("execution.(*WatermarkTrigger).KeyReceived")
+	claims := false
+	var pos token.Pos
+	ast.Inspect(nr.Decl.Body, func(n ast.Node) bool {
+		cc, ok := n.(*ast.CaseClause)
+		if !ok {
+			return true
+		}
+		has := false
+		for _, e := range cc.List {
+			if strings.HasSuffix(core.ExprStr(e), "TriggerTypeWatermark") {
+				has = true
+			}
+		}
+		if has {
+			for _, s := range cc.Body {
+				if rs, ok := s.(*ast.ReturnStmt); ok && len(rs.Results) == 1 && core.ExprStr(rs.Results[0]) == "true" {
+					claims = true
+					pos = rs.Pos()
+				}
+			}
+		}
+		return true
+	})
+	if !claims {
+		c.OK(rule, key, nr.Decl.Pos(), 1, "the watermark trigger does not claim to be retraction-free")
+		return
+	}
+	// does KeyReceived refuse (or treat specially) keys at or below the watermark?
+	looksAtWatermark := false
+	ast.Inspect(kr.Decl.Body, func(n ast.Node) bool {
+		if se, ok := n.(*ast.SelectorExpr); ok && se.Sel.Name == "watermark" {
+			looksAtWatermark = true
+		}
+		return true
+	})
+	c.Decide(looksAtWatermark, rule, key, pos, 2, "keys at or below the watermark are not registered again",
+		"NoRetractions is true for the watermark trigger, but WatermarkTrigger.KeyReceived registers every key without comparing it with the current watermark: a record for a key that has already fired (late input — e.g. from an inner GROUP BY whose trigger ignores watermarks, or a time column other than the watermarked one) fires it again, and the retraction and the new row are printed as two ordinary rows by -o csv/json and counted by LIMIT")
 }
